@@ -190,6 +190,12 @@ class Peer(object):
         if own_id is not None:
             refuse(own_id, 'refuse-own', False)
         alpha['sess-term'] = lambda: (dict(type='SESS_TERM', flags=0, reason=0), not self.sent_sess_init)
+        # a SESS_TERM marked as reply although this endpoint has not asked for termination: a reply to nothing
+        alpha['sess-term-reply'] = lambda: (dict(type='SESS_TERM', flags=tw.TERM_REPLY, reason=0),
+                                            (not self.sent_sess_init) or not (self.terminating() or self.closed()))
+        # a further SESS_INIT on a connection that has had one (other node id, other sizes): never negotiated again
+        alpha['sess-init-again'] = lambda: (dict(type='SESS_INIT', keepalive=5, segment_mru=100, transfer_mru=5000, nodeid=b'dtn://someone-else/', ext=[]),
+                                            self.sent_sess_init)
         alpha['keepalive'] = lambda: (dict(type='KEEPALIVE'), False)
         alpha['msg-reject'] = lambda: (dict(type='MSG_REJECT', reason=2, rej_msg_id=4), False)
         alpha['unknown-type'] = lambda: (dict(type='UNKNOWN', msg_id=0x0f, raw=b''), True)
@@ -241,6 +247,8 @@ class Peer(object):
                     self.open_rx = None
         if msg['type'] in ('contact', 'RAW'):
             self.sent_contact = True
+        if msg['type'] == 'SESS_INIT' and self.sent_contact and not was_closed:
+            self.sent_sess_init = True      # (in the pre-init state this one is the peer's first and proper SESS_INIT)
         res = self.settle()
         self.injected.append(dict(name=name, msg=msg, out_of_place=oop, reactions_before=before, reactions_after=self.reactions(),
                                   closed_before=was_closed, closed_after=self.closed(), term_before=was_term, settle=res))
@@ -483,7 +491,7 @@ def run_early_ack(role, extra, flags, obs):
 
 def _state_alphabet(state):
     base = ['seg-whole', 'seg-start', 'seg-mid-current', 'seg-end-current', 'seg-mid-other', 'seg-end-other', 'ack-unknown', 'ack-unknown-end',
-            'refuse-unknown', 'refuse-id1', 'seg-mid-zero', 'seg-end-zero', 'sess-term', 'keepalive', 'msg-reject', 'unknown-type', 'unknown-type-ff', 'unknown-type-00', 'unknown-type-08']
+            'refuse-unknown', 'refuse-id1', 'seg-mid-zero', 'seg-end-zero', 'sess-term', 'sess-term-reply', 'sess-init-again', 'keepalive', 'msg-reject', 'unknown-type', 'unknown-type-ff', 'unknown-type-00', 'unknown-type-08']
     if state == 'pre-contact':
         return ['contact-bad-magic', 'contact-bad-version', 'contact-bad-version-7', 'contact-bad-magic+good', 'contact-v3+good', 'contact-bad-magic+good+init']
     if state == 'own-unacked':
